@@ -69,7 +69,7 @@ pub mod __ {
 
     #[cfg(feature = "__for_konst")]
     pub use crate::{
-        macros::array_macros::{assert_array, uninit_array_of_len, unit_array},
+        macros::array_macros::{array_len, assert_array, uninit_array_of_len, unit_array},
         maybe_uninit::{array_assume_init, uninit_array},
         type_eq::make_project_fn::__make_projection_parse_generics,
     };
